@@ -113,6 +113,20 @@ extern "C" void proof_emplace() {
   VASSERT(C19, l.count() == TL_live(&l), "count is the number of live slots");
 }
 
+#ifdef PAYLOAD_INT
+// an insert WITHOUT payload into a pool of payload-carrying tasks: the slot (possibly recycled) must expose none
+extern "C" void proof_emplace_plain() {
+  TL l; nd_obj(l);
+  VASSUME(TL_wf(&l)); VASSUME(l._count < CAP);
+  TL old = l;
+  StateID o = nd_u16(), d = nd_u16();
+  Long r = l.emplace(o, d, TransitionType::CHANGE);
+  VASSERT(C19, r < CAP && TL_vacant(&old, r) && l.count() == old._count + 1, "insert without payload: free slot, count + 1");
+  VASSERT(C19/C14, l._items[r].origin == o && l._items[r].destination == d && l._items[r].payload() == nullptr, "insert without payload stores the item and exposes no payload, whatever the slot held before");
+  VASSERT(C19, TL_wf(&l), "insert without payload preserves the representation invariant");
+}
+#endif
+
 extern "C" void proof_emplace_full() {
   TL l; nd_obj(l);
   VASSUME(TL_wf(&l));
@@ -155,6 +169,25 @@ extern "C" void proof_clear() {
   VASSERT(C19, TL_vacant(&l, j), "clear: every slot is free");
   Long r = do_emplace(l, 1, 2, TransitionType::CHANGE, 7);
   VASSERT(C19, r == 0 && l.count() == 1 && TL_wf(&l), "clear: next insert succeeds as on a new pool");
+  // a cleared pool takes CAPACITY inserts, each into a valid slot (the safety checks of C11 ride on these calls)
+  bool ok = true;
+  for (unsigned k = 1; k < CAP; ++k) { Long q = do_emplace(l, 1, 2, TransitionType::CHANGE, 7); ok = ok && q < CAP; }
+  VASSERT(C19/C11, ok && l.count() == CAP && TL_wf(&l), "after clear the pool accepts CAPACITY inserts, each into a slot inside the pool");
+}
+
+// copying a pool (the machine instance is copyable) yields the same pool: same free slots, same live items, same future behaviour
+extern "C" void proof_copy() {
+  TL l; nd_obj(l);
+  VASSUME(TL_wf(&l));
+  if (l._count > 0 && l._count < CAP) VREACH("pool with holes");
+  TL c = l;
+  TL a; a = l;
+  VASSERT(C19/C10, TL_wf(&c) && c.count() == l.count() && TL_wf(&a) && a.count() == l.count(), "a copy of a pool is a well-formed pool with the same count");
+  Long j = nd_u16(); VASSUME(j < CAP);
+  VASSERT(C19/C10, TL_vacant(&c, j) == TL_vacant(&l, j) && TL_vacant(&a, j) == TL_vacant(&l, j), "a copy has the same free and live slots");
+  if (!TL_vacant(&l, j)) VASSERT(C19/C10, same_item(c, l, j) && same_item(a, l, j), "a copy holds the same live items");
+  if (l._count < CAP) { StateID o = nd_u16(); Long r1 = do_emplace(l, o, 1, TransitionType::CHANGE, 3); Long r2 = do_emplace(c, o, 1, TransitionType::CHANGE, 3);
+    VASSERT(C19/C10, r1 == r2, "a copy continues exactly as the original: the next insert returns the same slot"); }
 }
 
 extern "C" void proof_access() {
